@@ -215,3 +215,20 @@ def nested_delayed(blocks=2, maxo=2, maxi=1, nvariants=2, colliding_only=False, 
             continue
         name = 'nd%d|%s.%s' % (blocks, 'same-ids' if same else 'other-ids', '/'.join(''.join(map(str, v)) for v in combo))
         yield name, descs, [[] for _ in combo], [list(v) for v in combo]
+
+
+def trailing_class33(level=0):
+    """a finished quality-information block followed, after an element of another class, by class-33 elements used as
+    ORDINARY elements (no bitmap governs them: they are plain members of the template, not attributes)"""
+    tails = [('q', [NS, Q7]), ('cq', [NN, C3, Q7]), ('q-then-plain', [NS, Q7, N7]), ('q-first', [Q7, NS])]
+    for name, descs, queues, free in chain1(level):
+        if not name.startswith(('b2|', 'b3|')):
+            continue
+        op = name.split('|')[1].split('.')[0]
+        form = name.rsplit('.', 1)[1]
+        if form != 'fixed' or '.direct.' not in name:
+            continue
+        for tname, tail in tails:
+            if tname == 'q-first' and op == '222':
+                continue      # a class-33 element directly after the quality values would continue the run
+            yield '%s|tail-%s' % (name, tname), descs + tail, queues, free
